@@ -218,6 +218,34 @@ def run(ctx):
                       '%s(is_client=%s) hashes %s; MS-NLMP 3.4.5.%s requires key || "%s\\0"' % (fn, isc[0], consts, '2' if fn == 'sign_key' else '3', want))
         ctx.check(seen == {True, False}, 'R16.3', '%s:coverage' % fn, '%s distinguishes both directions' % fn, b.where())
 
+    # ---- R16.7 / R16.8 gss_unwrapex is a function of (handle state, message): the ciphertext is read into a buffer created in this call, and the
+    # only refusal it decides itself is the checksum mismatch --------------------------------------------------------------------------------
+    u2 = ctx.body(UNWRAP)
+    n_rd = n_err = 0
+    for path, st in feasible_paths(u2, P):
+        v = strip(st.env.get(0))
+        if v[0] == 'unknown':
+            continue
+        for ev in path_calls(st, '<std::vec::Vec<u8> as model::data::Message>::read'):
+            n_rd += 1
+            recv = ev[2][0]
+            # value of the receiver before the read: `Vec::new()` of this call (Vec<u8>::read fills an empty vector to the end of the stream, but
+            # reads exactly len() bytes into a non-empty one)
+            prev = strip(ev[3][0])         # (the arguments are recorded with the value they had when the call was made)
+            fresh = prev[0] == 'call' and re.search(r'Vec::<T>::new$', prev[1]) is not None
+            ctx.check(fresh, 'R16.7', 'unwrap:payload_buffer', 'the ciphertext is read into a vector created empty in this call', u2.where(),
+                      'gss_unwrapex reads the ciphertext into a buffer that outlives the call (not a fresh Vec::new()): Vec<u8>::read fills an empty vector to the end '
+                      'of the message but reads exactly len() bytes into a non-empty one, so from the second message on the payload length is the first message\'s')
+        kinds_ = [n[2] for n in walk(resolve(st, v)) if n[0] == 'agg' and n[1] == 'model::error::RdpErrorKind']
+        if ret_kind(v) == 'err' and kinds_ != ['InvalidCast']:        # (InvalidCast is the cast! macro on a field of the parsed signature: a parse failure)
+            n_err += 1
+            cmp_seen = any(strip(ev[2])[0] == 'call' and re.search(r'PartialEq.*::(ne|eq)$', strip(ev[2])[1]) for ev in path_branches(st))
+            ctx.check(cmp_seen, 'R16.8', 'unwrap:refusal', 'gss_unwrapex refuses on its own only after the checksum comparison', u2.where(),
+                      'gss_unwrapex returns an error of its own before the checksum comparison (a length / shape guard): a message that MS-NLMP allows (e.g. a sealed '
+                      'empty message of exactly 16 bytes) is refused without passing through the RC4 handle, which also desynchronises every later message')
+    ctx.floor('R16.7', 'payload reads in gss_unwrapex', n_rd, 1)
+    ctx.floor('R16.8', 'explicit refusals of gss_unwrapex', n_err, 1)
+
     # ---- R16.5 RC4 index arithmetic modulo 256 only -------------------------------------------------------------------------
     n_rc4 = 0
     for k, b in P.bodies.items():
